@@ -100,6 +100,10 @@ for c in concrete:
             n: (id(getattr(c, n)) if hasattr(c, n) else None)
             for n in ("_locks", "_cls_lock", "_buffer", "_buffered_collections", "_buffer_context", "_BUFFER_LOCK")
         },
+        "static_types": {
+            n: (type(getattr(c, n)).__name__ if hasattr(c, n) else None)
+            for n in ("_locks", "_cls_lock", "_BUFFER_LOCK", "_buffer", "_buffered_collections")
+        },
         "thread_lock_kind": type(c.__dict__.get("_thread_lock", None)).__name__
         if "_thread_lock" in c.__dict__
         else type(getattr(c, "_thread_lock", None)).__name__,
